@@ -163,10 +163,13 @@ def gen_bjobs(rng, ids, pool, malformed):
     listed = []
     for _ in range(rng.randint(0, 7)):
         r = rng.random()
-        if r < 0.55 and ids:
+        if r < 0.5 and ids:
             jid = rng.choice(ids)
-        elif r < 0.85:
+        elif r < 0.75:
             jid = rng.choice(pool)
+        elif r < 0.87 and ids:
+            # an element of a job array whose number is a queried job's: another job
+            jid = "%s[%d]" % (rng.choice(ids), rng.randint(1, 9))
         else:
             rows.append(rng.choice(["", "  ", "a|b"]))
             continue
@@ -421,6 +424,32 @@ def cancel_cases(rng):
         else:
             out = "%s %d" % (rec.cancel_status.name, rec.return_code)
         cases.append(Case({"cancel": "flux", "ids": ids}, ["sched.cancel n=%d rc=0" % len(ids)], [out], mon, True))
+    # several Flux jobs, some of which refuse to be cancelled (they went inactive a moment ago):
+    # every other job must still reach flux.job.cancel, whatever the order of the listing
+    for _ in range(25):
+        n_ids = rng.randint(2, 6)
+        ids = ["f%d" % (100 + i) for i in range(n_ids)]
+        rng.shuffle(ids)
+        refusing = [i for i in ids if rng.random() < 0.35]
+        fakeenv.FLUX.answers = [(i, "R") for i in ids]
+        fakeenv.FLUX.cancelled = []
+        fakeenv.FLUX.cancel_raises = set(int(fakeenv._JobID(i)) for i in refusing)
+        mon = []
+        try:
+            rec = ad["flux"].cancel_jobs(list(ids))
+            out = "%s %d" % (rec.cancel_status.name, rec.return_code)
+        except Exception as e:  # noqa
+            out = "RAISE:%s" % type(e).__name__
+            mon.append(("cancel-returns-record", "flux cancel_jobs raised %r" % e))
+        finally:
+            fakeenv.FLUX.cancel_raises = set()
+        reached = set(fakeenv.FLUX.cancelled)
+        missing = [i for i in ids if i not in refusing and int(fakeenv._JobID(i)) not in reached]
+        if missing:
+            mon.append(("cancel-covers-live", "flux cancel_jobs was given %s; %s refused; %s never reached "
+                        "flux.job.cancel" % (ids, refusing, missing)))
+        cases.append(Case({"cancel": "flux", "ids": ids, "refusing": refusing},
+                          ["sched.cancel n=%d rc=%d" % (n_ids, 1 if refusing else 0)], [out], mon, True))
     return cases
 
 
